@@ -16,6 +16,7 @@ Arguments tl_try : simpl never.
 Arguments tl_rel_raises : simpl never.
 Arguments normalise : simpl never.
 Arguments faulty : simpl never.
+Arguments intr : simpl never.
 Arguments enabled : simpl never.
 Arguments remove_all : simpl never.
 Arguments remove_one : simpl never.
@@ -71,7 +72,7 @@ Proof. unfold tl_rel_raises. intros ->. rewrite Nat.eqb_refl. apply andb_false_r
 (* the pc is inside the OS-lock stage of an acquire described by a *)
 Definition acq_pc (p : pc) (a : aloc) : Prop :=
   match p with
-  | POpen a' | PFlock a' _ | PCloseF a' _ | PSleep a' _ => a' = a
+  | POpen a' | PFlock a' _ | PCloseF a' _ _ | PSleep a' _ => a' = a
   | _ => False
   end.
 
@@ -187,7 +188,7 @@ Qed.
 Theorem TL_step s t : TL s -> viol (step s t) = false -> TL (step s t).
 Proof.
   intros H Hv. destruct (enabled s t) eqn:He; [|unfold step; now rewrite He].
-  destruct (t_pc (thr s t)) as [|a dl|a|a d|a d|a w|a oserr|o d k|o d k|o k] eqn:Hpc.
+  destruct (t_pc (thr s t)) as [|a dl|a|a d|a d i|a w|a oserr|o d k|o d k|o k] eqn:Hpc.
   - (* PIdle *) destruct (t_prog (thr s t)) as [|c rest] eqn:Hpr; [unfold step; now rewrite He, Hpc, Hpr|].
     destruct (step_viol_call _ _ _ _ Hpc Hpr He Hv) as [Hok _].
     unfold step. rewrite He, Hpc, Hpr. cbn.
@@ -259,13 +260,14 @@ Proof.
       * cbn. rewrite !upd_same. cbn. apply Hloc; cbn; auto; rewrite Nat.eqb_refl; lia.
   - (* POpen *)
     unfold step. rewrite He, Hpc. cbn.
-    destruct (faulty s KOpen).
+    destruct (faulty s KOpen); [destruct (intr s KOpen)|].
+    + apply TL_enter_cleanup; [eapply TL_same; [| |exact H]; reflexivity|]. cbn. rewrite Hpc. reflexivity.
     + apply TL_after_attempt; [eapply TL_same; [| |exact H]; reflexivity|]. cbn. rewrite Hpc. reflexivity.
     + apply (TL_set_pc_acq _ t a); [eapply TL_same; [| |exact H]; reflexivity| |]; cbn; auto. rewrite Hpc. reflexivity.
   - (* PFlock *)
     unfold step. rewrite He, Hpc. cbn.
-    assert (Hfail : forall s1, objs s1 = objs s -> thr s1 = thr s -> TL (set_pc s1 t (PCloseF a d))).
-    { intros s1 Ho Ht. apply (TL_set_pc_acq _ t a); [eapply TL_same; [| |exact H]; auto| |]; cbn; auto. rewrite Ht, Hpc. reflexivity. }
+    assert (Hfail : forall s1 i, objs s1 = objs s -> thr s1 = thr s -> TL (set_pc s1 t (PCloseF a d i))).
+    { intros s1 i Ho Ht. apply (TL_set_pc_acq _ t a); [eapply TL_same; [| |exact H]; auto| |]; cbn; auto. rewrite Ht, Hpc. reflexivity. }
     destruct (faulty s KLock); [apply Hfail; reflexivity|].
     destruct (holder_free_for _ d); [|apply Hfail; reflexivity].
     destruct (TL_at s t (a_o a) H) as (Hown & Hlev & Hd1 & Hnr & Hcd & _ & Hocc & _); [rewrite Hpc; cbn; rewrite Nat.eqb_refl; lia|].
@@ -280,7 +282,7 @@ Proof.
     unfold step. rewrite He, Hpc. cbn.
     match goal with |- context [k_close ?s1 d] => assert (H2 : TL (k_close s1 d))
       by (eapply TL_same; [apply objs_k_close|apply thr_k_close|eapply TL_same; [| |exact H]; reflexivity]) end.
-    destruct (faulty s KClose).
+    destruct (faulty s KClose || i).
     + apply TL_enter_cleanup; auto. rewrite thr_k_close. cbn. rewrite Hpc. reflexivity.
     + apply TL_after_attempt; auto. rewrite thr_k_close. cbn. rewrite Hpc. reflexivity.
   - (* PSleep *)
